@@ -12,7 +12,7 @@ from harness import treeops as T
 
 PROPERTY = 'C13'
 LEVEL = 'model_checking'
-REACH_POINTS = ['decode', 'encode', 'iterate', 'random']
+REACH_POINTS = ['decode', 'encode', 'iterate', 'random', 'bind.accepted', 'bind.refused']
 
 
 class Layer(pg.Object):
@@ -293,6 +293,65 @@ def h_where_none(params, pick):
   return None
 
 
+BOUNDS = [None, -1.0, 0.0, 0.5, 1.0]
+
+
+def h_bind(params, lo, hi, smin, smax, kind, pick):
+  """A placeholder bound to a typed field: either the binding is refused (ValueError / TypeError at construction), or every
+  DNA of its space decodes to a value the field's spec accepts. A binding whose whole range lies inside the field's range is
+  not refused."""
+  from engine.chx import concretize
+  lo, hi = concretize(lo, range(1, len(BOUNDS))), concretize(hi, range(1, len(BOUNDS)))
+  smin, smax = concretize(smin, range(len(BOUNDS))), concretize(smax, range(len(BOUNDS)))
+  kind = params['kind']
+  if lo > hi or (smin and smax and smin > smax):
+    raise Assume()
+  sym_pick = pick
+  with untraced():
+    lo, hi, smin, smax = BOUNDS[lo], BOUNDS[hi], BOUNDS[smin], BOUNDS[smax]
+    import pyglove.core.typing as pgt
+    try:
+      if kind == 0:
+        spec = pgt.Float(min_value=smin, max_value=smax)
+        hv = pg.floatv(lo, hi)
+        values = [lo, (lo + hi) / 2, hi]
+        inside = (smin is None or lo >= smin) and (smax is None or hi <= smax)
+      elif kind == 1:
+        spec = pgt.Int(min_value=None if smin is None else int(smin * 2), max_value=None if smax is None else int(smax * 2))
+        cands = [int(lo * 2), int(hi * 2), 0]
+        hv = pg.oneof(cands)
+        values = [0, 1, 2]
+        inside = all((spec.min_value is None or c >= spec.min_value) and (spec.max_value is None or c <= spec.max_value) for c in cands)
+      else:
+        spec = pgt.List(pgt.Float(min_value=smin, max_value=smax))
+        hv = pg.manyof(2, [lo, hi, 0.25])
+        values = [[0, 1], [1, 2], [0, 2]]
+        inside = all((smin is None or c >= smin) and (smax is None or c <= smax) for c in (lo, hi, 0.25))
+    except (ValueError, TypeError):
+      raise Assume()
+    try:
+      holder = pg.Dict(x=hv, value_spec=pgt.Dict([('x', spec)]))
+    except (ValueError, TypeError) as e:
+      reach('bind.refused')
+      if inside:
+        return Violation(f'bind:compatible_placeholder_refused:{kind}', f'{hv!r} into {spec!r}: {e!r}'[:300])
+      return None
+    reach('bind.accepted')
+  pick = concretize(sym_pick, (0, 1, 2))         # which DNA of the accepted placeholder (asked only now)
+  with untraced():
+    t = pg.template(holder)
+    dna = pg.DNA(values[pick])
+    try:
+      out = t.decode(dna)
+    except Exception as e:  # pylint: disable=broad-except
+      return Violation(f'bind:valid_dna_does_not_decode:{kind}:{type(e).__name__}', f'{hv!r} bound to {spec!r}, DNA {dna!r}: {e!r}'[:300])
+    try:
+      spec.apply(out.x)
+    except (ValueError, TypeError) as e:
+      return Violation(f'bind:decoded_value_rejected_by_field:{kind}', f'{hv!r} bound to {spec!r}: {out.x!r}')
+  return None
+
+
 def shards(tier, seed):
   quick = tier == 'quick'
   b = 40 if quick else 400
@@ -302,6 +361,9 @@ def shards(tier, seed):
     out.append(dict(name=f'random:{name}', fn='h_random', params=dict(tmpl=name), args=[('rng', 'rng')], budget_s=b, per_path_s=20))
     if name != 'floaty':
       out.append(dict(name=f'iterate:{name}', fn='h_iterate', params=dict(tmpl=name), args=[('n', 'int')], budget_s=b, per_path_s=20))
+  for kind, kname in enumerate(('floatv', 'oneof', 'manyof')):
+    out.append(dict(name=f'bind:{kname}', fn='h_bind', params=dict(kind=kind),
+                    args=[(n, 'int') for n in ('lo', 'hi', 'smin', 'smax', 'kind', 'pick')], budget_s=b * 3, expect_s=30, per_path_s=20))
   out.append(dict(name='where', fn='h_where', params={}, args=[('d0', 'int'), ('d1', 'int')], budget_s=b, per_path_s=20))
   out.append(dict(name='where_none', fn='h_where_none', params={}, args=[('pick', 'int')], budget_s=b, per_path_s=20))
   return out
